@@ -93,7 +93,9 @@ func c13Value(l cfgLeaf, which string) any {
 		return map[string][]any{"base": {alt("base1", 1), alt("base2", 2)}, "over": {alt("over", 9)}, "over2": {alt("second1", 5), alt("second2", 6), alt("second3", 7)}, "empty": {}}[which]
 	case "contents":
 		entry := func(n string) []any {
-			return []any{map[string]any{"src": "src-" + n, "dst": "/dst-" + n, "file_info": map[string]any{"owner": n, "mode": 0o640}}, map[string]any{"dst": "/dir-" + n, "type": "dir"}}
+			return []any{map[string]any{"src": "src-" + n, "dst": "/dst-" + n, "file_info": map[string]any{"owner": n, "mode": 0o640}}, map[string]any{"dst": "/dir-" + n, "type": "dir"},
+				map[string]any{"src": "src-rpm-" + n, "dst": "/rpm-" + n, "packager": "rpm"}, map[string]any{"src": "src-deb-" + n, "dst": "/deb-" + n, "packager": "deb"},
+				map[string]any{"src": "src-apk-" + n, "dst": "/apk-" + n, "packager": "apk", "type": "config"}}
 		}
 		return map[string][]any{"base": entry("base"), "over": entry("over")[:1], "over2": append(entry("second"), entry("third")...), "empty": {}}[which]
 	}
@@ -179,6 +181,17 @@ func init() {
 				if !yield(C13Case{Part: "contents", Key: k}) {
 					return
 				}
+				// the override block sets something else: every format gets the base list's entries for it
+				if !yield(C13Case{Part: "contents", Key: k, Empty: true}) {
+					return
+				}
+				for _, k2 := range Formats {
+					if k2 != k {
+						if !yield(C13Case{Part: "contents", Key: k, Key2: k2}) {
+							return
+						}
+					}
+				}
 			}
 			// the base settings leave the leaf unset; two override blocks for the same leaf; a block for every format
 			for _, l := range leaves {
@@ -237,6 +250,19 @@ func init() {
 		},
 		Check: checkC13,
 	})
+}
+
+// normInfoFor renders the effective settings for format f. Entries addressed to other packagers are left out on
+// both sides: Get drops them only when the format has an override block, the packagers drop them in any case.
+func normInfoFor(info *nfpm.Info, f string) string {
+	cp := *info
+	cp.Contents = nil
+	for _, e := range info.Contents {
+		if e != nil && (e.Packager == "" || e.Packager == f) {
+			cp.Contents = append(cp.Contents, e)
+		}
+	}
+	return normInfo(&cp)
 }
 
 // normInfo renders effective settings for comparison (funcs dropped, pointers followed).
@@ -394,7 +420,7 @@ func checkC13(env *engine.Env, ci any) engine.Outcome {
 			if err != nil {
 				return "", err
 			}
-			return normInfo(info), nil
+			return normInfoFor(info, f), nil
 		}
 		order := []string{c.First}
 		if c.Second != "" {
@@ -414,7 +440,7 @@ func checkC13(env *engine.Env, ci any) engine.Outcome {
 				out.HarnessError = "reference document: " + err.Error()
 				return out
 			}
-			got := normInfo(info)
+			got := normInfoFor(info, f)
 			if got != want {
 				role := "other-format"
 				if f == c.Key {
@@ -507,60 +533,109 @@ func checkC13(env *engine.Env, ci any) engine.Outcome {
 		}
 		out.Key = "umask:" + c.Key
 	case "contents":
-		var list []model.Entry
-		for _, f := range append([]string{""}, Formats...) {
-			n := f
-			if n == "" {
-				n = "all"
+		// entries of every kind addressed to every packager (and to all), in the base list and in the override
+		// list of Key; Empty: the override block of Key sets only a relation, Key2: a second block does too
+		mk := func(prefix, src string) []model.Entry {
+			var list []model.Entry
+			for _, f := range append([]string{""}, Formats...) {
+				n := f
+				if n == "" {
+					n = "all"
+				}
+				list = append(list, model.Entry{Src: src, Dst: prefix + n, Packager: f})
+				list = append(list, model.Entry{Dst: prefix + "ghost-" + n, Packager: f, Type: "ghost"})
+				list = append(list, model.Entry{Src: "doc/manual.txt", Dst: prefix + "doc-" + n, Packager: f, Type: "doc"})
+				list = append(list, model.Entry{Src: src, Dst: prefix + "conf-" + n, Packager: f, Type: "config|noreplace"})
+				list = append(list, model.Entry{Dst: prefix + "dir-" + n, Packager: f, Type: "dir"})
+				list = append(list, model.Entry{Src: "/t", Dst: prefix + "link-" + n, Packager: f, Type: "symlink"})
 			}
-			list = append(list, model.Entry{Src: "etc/app.conf", Dst: "/opt/base-" + n, Packager: f})
+			return list
 		}
-		var olist []model.Entry
-		for _, f := range append([]string{""}, Formats...) {
-			n := f
-			if n == "" {
-				n = "all"
-			}
-			olist = append(olist, model.Entry{Src: "etc/empty", Dst: "/opt/over-" + n, Packager: f})
-		}
+		list, olist := mk("/opt/base-", "etc/app.conf"), mk("/opt/over-", "etc/empty")
 		d := Setting{Name: "default"}.doc(list, t.Root)
-		d["overrides"] = map[string]any{c.Key: map[string]any{"contents": fixture.ContentsYAML(specs(olist), t.Root)}}
+		over := map[string]any{"contents": fixture.ContentsYAML(specs(olist), t.Root)}
+		if c.Empty {
+			over = map[string]any{"depends": []any{"only-" + c.Key}}
+		}
+		ov := map[string]any{c.Key: over}
+		if c.Key2 != "" {
+			ov[c.Key2] = map[string]any{"depends": []any{"only-" + c.Key2}}
+		}
+		d["overrides"] = ov
 		text := d.YAML()
 		var ks []string
-		for _, f := range Formats {
+		judge := func(f string, data []byte, err error, stage string) {
 			out.Transitions++
-			data, err := buildYAML(text, f)
+			sfx := ""
+			if stage != "" {
+				sfx = ":" + stage
+			}
 			if err != nil {
-				viol("merge:contents-build-error:"+f, "packaging failed: %v", err)
-				continue
+				viol("merge:contents-build-error:"+f+sfx, "packaging failed (%s): %v", stage, err)
+				return
 			}
 			pkg, err := pkgread.Decode(f, data, env.Tools)
 			if err != nil {
-				viol("merge:undecodable:"+f, "%v", err)
-				continue
+				viol("merge:undecodable:"+f+sfx, "%v", err)
+				return
 			}
 			prefix, which := "/opt/base-", "base"
-			if f == c.Key {
+			if f == c.Key && !c.Empty {
 				prefix, which = "/opt/over-", "override"
 			}
-			want := map[string]bool{prefix + "all": true, prefix + f: true}
+			want := map[string]bool{}
+			for _, n := range []string{"all", f} {
+				for _, k := range []string{"", "conf-", "dir-", "link-"} {
+					want[prefix+k+n] = true
+				}
+				if f == "rpm" {
+					want[prefix+"ghost-"+n], want[prefix+"doc-"+n] = true, true
+				}
+			}
 			for _, e := range pkg.Entries {
-				if e.Kind != "file" {
+				if e.Path == "/opt" || e.Path == "/" || e.Path == "" {
 					continue
 				}
 				if !want[e.Path] {
-					viol("merge:contents-foreign-entry:"+f, "override block for %s: the %s package ships %q; expected only the %s list's entries addressed to %s or to all (%v)", c.Key, f, e.Path, which, f, sortedBoolKeys(want))
+					viol("merge:contents-foreign-entry:"+f+sfx, "override blocks %v (%s): the %s package ships %q; expected only the %s list's entries addressed to %s or to all", sortedAnyKeys(ov), stage, f, e.Path, which, f)
 				}
 				delete(want, e.Path)
-				ks = append(ks, f+":"+e.Path)
+				if stage == "" {
+					ks = append(ks, f+":"+e.Path)
+				}
 			}
 			for p := range want {
-				viol("merge:contents-missing-entry:"+f, "override block for %s: the %s package lacks %q", c.Key, f, p)
+				viol("merge:contents-missing-entry:"+f+sfx, "override blocks %v (%s): the %s package lacks %q", sortedAnyKeys(ov), stage, f, p)
 			}
 		}
-		out.Key = "contents:" + c.Key + ":" + strings.Join(ks, ",")
+		for _, f := range Formats {
+			data, err := buildYAML(text, f)
+			judge(f, data, err, "")
+		}
+		// the same on ONE parsed configuration: the override format first, then every format (and again)
+		if cfg, err := parseYAML(text, nil); err == nil {
+			order := append(append([]string{c.Key}, Formats...), Formats...)
+			for i, f := range order {
+				data, _, err := packageFrom(&cfg, f)
+				st := "one-config-first"
+				if i > 0 {
+					st = "one-config-later"
+				}
+				judge(f, data, err, st)
+			}
+		}
+		out.Key = fmt.Sprintf("contents:%s:%v:%s:%s", c.Key, c.Empty, c.Key2, strings.Join(ks, ","))
 	}
 	return out
+}
+
+func sortedAnyKeys(m map[string]any) []string {
+	var ks []string
+	for k := range m {
+		ks = append(ks, k)
+	}
+	sort.Strings(ks)
+	return ks
 }
 
 func sortedBoolKeys(m map[string]bool) []string {
